@@ -153,6 +153,15 @@ mut('c11-xpub-cancel-keeps', 'C11', 'src/xpub.rs', "                        entr
 mut('h-c11-swap-remove', 'C11', 'src/pub.rs', "                        entry.subscriptions.remove(index);", "                        entry.subscriptions.swap_remove(index);", expect='no-alarm', note='HARMLESS: the order of subscriptions is not observable (the contract is over the multiset)')
 mut('h-c11-insert-front', 'C11', 'src/pub.rs', "                    entry.subscriptions.push(Vec::from(&data[1..]));", "                    entry.subscriptions.insert(0, Vec::from(&data[1..]));", expect='no-alarm', note='HARMLESS: order not observable')
 mut('h-c11-rename', 'C11', 'src/pub.rs', "sub_filter", "prefix", expect='no-alarm', note='HARMLESS rename (the loop hints name the loop variable: undecided at worst)')
+mut('c13-stop-at-first-error', 'C13', 'src/sub.rs', "            let sent = peer\n                .send_queue\n                .send(Message::Message(message.clone()))\n                .await;\n            if let Err(e) = sent {\n                if result.is_ok() {\n                    result = Err(e.into());\n                }\n            }\n", "            peer.send_queue\n                .send(Message::Message(message.clone()))\n                .await?;\n", note='F7 returns: the traversal stops at the first failing peer')
+mut('c13-announce-every-call', 'C13', 'src/sub.rs', "        if !self.backend.subs.lock().insert(subscription.to_string()) {\n            return Ok(());\n        }\n", "        self.backend.subs.lock().insert(subscription.to_string());\n", note='F8 returns (subscribe half): a repeated subscribe is announced again')
+mut('c13-unsub-every-call', 'C13', 'src/sub.rs', "        if !self.backend.subs.lock().remove(subscription) {\n            return Ok(());\n        }\n", "        self.backend.subs.lock().remove(subscription);\n", note='F8 returns (unsubscribe half): cancelling a topic that is not subscribed is announced')
+mut('c13-unsub-wrong-tag', 'C13', 'src/sub.rs', "        self.process_subs(subscription, SubBackendMsgType::UNSUBSCRIBE)", "        self.process_subs(subscription, SubBackendMsgType::SUBSCRIBE)", note='unsubscribe announces a SUBSCRIBE')
+mut('c13-late-joiner-untold', 'C13', 'src/sub.rs', "        for message in subs_msgs {\n            send_queue.send(Message::Message(message)).await.unwrap();\n        }\n", "        let _ = subs_msgs;\n", expect='any-nonzero', note='a late joiner is registered without being sent the current set (the loop the invariants are attached to is gone: undecided acceptable)')
+mut('c13-late-joiner-one-short', 'C13', 'src/sub.rs', "        for message in subs_msgs {", "        for message in subs_msgs.into_iter().skip(1) {", expect='any-nonzero', note='a late joiner misses one topic (skip adapter outside the subset: undecided acceptable)')
+mut('c13-subscribe-skips-announce', 'C13', 'src/sub.rs', "        self.process_subs(subscription, SubBackendMsgType::SUBSCRIBE)\n            .await\n", "        let _ = subscription;\n        Ok(())\n", note='subscribe only updates the set: registered peers are never told')
+mut('c13-send-feed-only', 'C13', 'src/sub.rs', "                .send(Message::Message(message.clone()))\n                .await;", "                .feed(Message::Message(message.clone()))\n                .await;", note='announcement buffered but never flushed')
+mut('h-c13-rename-result', 'C13', 'src/sub.rs', "sent", "outcome", expect='no-alarm', note='HARMLESS rename')
 mut('h-req-closure', 'C07', 'src/req.rs', "        if self.current_request.is_some() {", "        if self.current_request.as_ref().map(|p| true).unwrap_or(false) {", expect='no-alarm', note='HARMLESS but through an un-annotated closure: Verus forgets the result, so the failed obligations must be reported as undecided (shape guard), never as a violation')
 mut('h-rr-extra-loop', 'C10', 'src/backend.rs', "        // In normal scenario this will always be only 1 iteration", "        let mut spins = 0u8;\n        while spins < 3 {\n            spins += 1;\n        }\n        // In normal scenario this will always be only 1 iteration", expect='no-alarm', note='HARMLESS extra loop the contracts carry no invariant for: undecided at worst')
 
